@@ -4,7 +4,7 @@ from .common import emit_struct, emit_error_enum, emit_free_fn, import_method, e
 from .u6_root import prelude_types
 
 NAME = 'u9_dispatch'
-PROPS = ['C02', 'C08', 'C05', 'C01', 'C06']
+PROPS = ['C02', 'C08', 'C05', 'C01', 'C06', 'C14']
 D = 'src/decoder.rs'
 T = 'src/types.rs'
 J = 'src/jsontypes.rs'
